@@ -186,6 +186,8 @@ def features(case):
                     pass
             if not valid_utf8(b):
                 feats.add("invalid_utf8")
+                if path and path[-1] == "key":
+                    feats.add("invalid_utf8_key")
     try:
         walk(t, v, visit)
     except Exception:
